@@ -1744,3 +1744,100 @@ _jobs_enc = jobs
 
 def jobs(tier):
     return _jobs_enc(tier) + [(h_int64_complex, a, 900) for a in ([(0, 4), (3, 4)] if tier == 'quick' else [(0, 4), (1, 4), (2, 4), (3, 4), (4, 4), (5, 8)])]
+
+
+# ------------------------------------------------------------------------------------------------ C14: ListBuilder::clear and the snapshots taken before it
+@guard
+def h_list_clear():
+    """ListBuilder::clear from any state (n >= 1 offsets in a buffer that earlier snapshots share): afterwards the builder holds the single offset
+    0, its content builder has been cleared, the old offsets buffer is untouched - and the builder no longer uses it: what is appended next goes
+    to a fresh buffer, so no snapshot taken before changes"""
+    from .cpp01 import struct_of
+    slots, nslots = builder_slots()
+    mod = module_of(LB)
+    fo, sz, al, fields = mod.types.struct_layout(struct_of(mod, '_ZN7awkward11ListBuilder7endlistEv'))
+    stubs = dict(COMMON_STUBS)
+    stubs.update(_child_stubs(slots))
+
+    def s_child_clear(eng, fr, ins, st, name, argv):
+        st.trace = st.trace + ((st.pc, 'clear', ()),)
+        return None
+    stubs['vf$slot%d' % slots['5clearEv']] = s_child_clear
+    m = MCtx([LB, GB, 'src/libawkward/builder/ArrayBuilderOptions.cpp', 'src/libawkward/kernel-dispatch.cpp'], unwind=8, stubs=stubs)
+    m.record('fakevt', {8 * j: (Ptr(('func', 'vf$slot%d' % j), 0), 8) for j in range(nslots)}, const=True)
+    n, res, L = m.bv('noffsets'), m.bv('reserved'), m.bv('contentlength')
+    m.assume(n >= 1, n <= res, res >= 1, res <= 2 ** 20, L >= 0, L <= 2 ** 40)
+    m.record('content', {0: (Ptr('fakevt', 0), 8), 8: (NULL, 8), 16: (NULL, 8), 32: (L, 8)})
+    m.record('ctrl', {0: (NULL, 8), 8: (z3.BitVecVal(1, 32), 4), 12: (z3.BitVecVal(1, 32), 4)})
+    st0 = State({}, m.mem, z3.BoolVal(True))
+    vt = m.eng.global_ptr(st0, '@_ZTVN7awkward11ListBuilderE', mod)
+    begun = m.bv('begun', 8)
+    m.assume(z3.ULE(begun, 1))
+    cells = {0: (Ptr(vt.obj, 16), 8), 8: (Ptr('lb', 0), 8), 16: (Ptr('ctrl', 0), 8), fo[1]: (BV(8), 8), fo[1] + 8: (z3.FPVal(1.5, z3.Float64()), 8),
+             fo[3]: (Ptr('content', 0), 8), fo[3] + 8: (NULL, 8), fo[4]: (begun, 1)}
+    a0 = _growable(m, 'offsets', n, res, fo[2], cells, 'lb')
+    this = m.record('lb', cells)
+    out = m.call('_ZN7awkward11ListBuilder5clearEv', [this])
+    a1 = m.mem.o['offsets'].arr
+    j = z3.BitVec('j!pos', 64)
+    newptr = m.cell('lb', fo[2] + 16)
+    still_old = z3.Or([g for g, q in nodeh_ptr_cases(newptr) if q.obj == 'offsets'] + [z3.BoolVal(False)])
+    newlen = m.cell('lb', fo[2] + 32)
+    first = None
+    for g, q in nodeh_ptr_cases(newptr):
+        if q.obj is not None and q.obj in m.mem.o and hasattr(m.mem.o[q.obj], 'arr'):
+            v = z3.Select(m.mem.o[q.obj].arr, q.off if not isinstance(q.off, int) else BV(q.off))
+            first = v if first is None else z3.If(g, v, first)
+    cleared = [pc for pc, nm, a in out.trace if nm == 'clear']
+    obls = [('clear does not raise', out.raised),
+            ('one offset is left', newlen != 1),
+            ('the offset left is 0', z3.BoolVal(True) if first is None else first != 0),
+            ('the old offsets (shared with snapshots) are untouched', z3.And(j >= 0, j < n, z3.Select(a1, j) != z3.Select(a0, j))),
+            ('the builder no longer appends into the buffer that snapshots share', still_old),
+            ('the content builder is cleared', z3.Not(z3.Or(cleared + [z3.BoolVal(False)])))]
+
+    def replay(model, ent_):
+        import subprocess, os
+        drv = r'''
+#include <cstdio>
+#include <string>
+#include "awkward/builder/ArrayBuilder.h"
+#include "awkward/builder/ArrayBuilderOptions.h"
+#include "awkward/Content.h"
+using namespace awkward;
+int main() {
+  ArrayBuilder b(ArrayBuilderOptions(8, 1.5));
+  b.beginlist(); b.integer(2); b.integer(3); b.endlist(); b.beginlist(); b.endlist();
+  ContentPtr snap = b.snapshot();
+  std::string before = snap.get()->tojson(false, 10);
+  b.clear();
+  b.beginlist(); b.integer(5); b.endlist(); b.beginlist(); b.integer(6); b.integer(7); b.integer(8); b.endlist();
+  std::string after = snap.get()->tojson(false, 10);
+  std::string now = b.snapshot().get()->tojson(false, 10);
+  printf("before=%s after=%s now=%s\n", before.c_str(), after.c_str(), now.c_str());
+  return (before == after && now == "[[5],[6,7,8]]") ? 0 : 1;
+}
+'''
+        try:
+            exe = fullnative_link(drv)
+        except Exception as e:      # noqa
+            return False, 'replay driver did not build: %s' % str(e)[-600:], {}
+        r = subprocess.run([exe], capture_output=True, text=True, timeout=30,
+                           env=dict(os.environ, ASAN_OPTIONS='detect_leaks=0', UBSAN_OPTIONS='halt_on_error=1:exitcode=87'), errors='replace')
+        payload = dict(native=r.stdout.strip())
+        if r.returncode != 0:
+            return True, 'snapshot of [[2, 3], []], then clear() and two more lists: %s' % (r.stdout.strip() or r.stderr[-200:]), payload
+        return False, 'native builder agrees (%s)' % r.stdout.strip(), payload
+    return mdischarge(m, 'ListBuilder::clear', obls, [], replay=replay, prefer=[n <= 6, res <= 8, L <= 50], extra=dict(bounds='any number of offsets >= 1 up to the reserved capacity <= 2^20, open or closed list, opaque content builder'))
+
+
+def nodeh_ptr_cases(p):
+    from .nodeh import ptr_cases
+    return ptr_cases(p)
+
+
+_jobs_before_listclear = jobs
+
+
+def jobs(tier):
+    return _jobs_before_listclear(tier) + [(h_list_clear, (), 900)]
